@@ -113,6 +113,43 @@ func genPair64(r *Rng) (*ISet, *ISet) {
 	return a, b
 }
 
+// probeResult64 writes into every bucket of a freshly returned bitmap (one value toggled near each bucket's minimum and
+// maximum) and then requires the given other bitmaps to hold their models: the result of a static operation is
+// independent of its inputs - "the same contract as the 32-bit bitmap".
+func probeResult64(c *Ctx, res *roaring64.Bitmap, want *ISet, sig string, others []*roaring64.Bitmap, models []*ISet) bool {
+	r := c.R
+	pm := &BM64{B: res, M: want.Clone()}
+	seen := map[uint64]bool{}
+	for _, v := range want.Intervals() {
+		for _, x := range []uint64{v.Lo, v.Hi} {
+			k := x >> 32
+			if seen[k] || len(seen) >= 6 {
+				continue
+			}
+			seen[k] = true
+			y := k<<32 | r.Range(0, max32)
+			c.Step("probe: result.Remove(%d); result.Add(%d)", x, y)
+			if c.Guard(sig+"/probe", func() { res.Remove(x); res.Add(y) }) {
+				return false
+			}
+			pm.M.Remove(x)
+			pm.M.Add(y)
+		}
+	}
+	if d := checkEq64(pm.B, pm.M); d != "" {
+		c.Fail(sig+"/probe/result", "after writing into the result: %s", d)
+		return false
+	}
+	for i, o := range others {
+		if d := checkEq64(o, models[i]); d != "" {
+			c.Fail(sig+"/probe/input-changed-by-a-write-to-the-result", "writing into the result changed input #%d: %s", i, d)
+			return false
+		}
+	}
+	c.Eval(int64(1 + len(others)))
+	return true
+}
+
 func c17Algebra(c *Ctx) {
 	r := c.R
 	ma, mb := genPair64(r)
@@ -157,6 +194,10 @@ func c17Algebra(c *Ctx) {
 		if !validate64(c, res, op+"-static") || !intact("static") {
 			return
 		}
+		if !probeResult64(c, res, want, "64/"+op+"/static", []*roaring64.Bitmap{A.B, B.B}, []*ISet{ma, mb}) {
+			return
+		}
+		ha, hb = storageHash64(A.B), storageHash64(B.B)
 		c.Step("in-place %s on Clone(A)", op)
 		cl := A.B.Clone()
 		if c.Guard("64/"+op+"/inplace", func() { inplaceOp64(op, cl, B.B) }) {
@@ -273,6 +314,25 @@ func c17Algebra(c *Ctx) {
 			return
 		}
 		c.Eval(2)
+		if !probeResult64(c, res, want, "64/Flip/static", []*roaring64.Bitmap{A.B}, []*ISet{ma}) {
+			return
+		}
+		// the same on a source whose buckets are shared with a copy-on-write clone (per-bucket flags set)
+		src := A.B.Clone()
+		src.SetCopyOnWrite(true)
+		sib := src.Clone()
+		var res2 *roaring64.Bitmap
+		c.Step("static Flip(S,%d,%d) where S shares its buckets with a copy-on-write clone", s, e)
+		if c.Guard("64/Flip/static-cow-source", func() { res2 = roaring64.Flip(src, s, e) }) {
+			return
+		}
+		if d := checkEq64(res2, want); d != "" {
+			c.Fail("64/Flip/static-cow-source/result", "Flip(S,%d,%d): %s", s, e, d)
+			return
+		}
+		if !probeResult64(c, res2, want, "64/Flip/static-cow-source", []*roaring64.Bitmap{src, sib}, []*ISet{ma, ma}) {
+			return
+		}
 	}
 	// aggregates
 	if !c.Failed() {
